@@ -788,6 +788,65 @@ fn c12(r: &Runner) {
             }
         }
     });
+    // leading words in an EXACT small ratio p : q (the word-level Euclid sequence terminates with a zero remainder) x
+    // continuations that deviate from the ratio in either direction
+    {
+        let mut pq: Vec<(u64, u64)> = vec![];
+        for p in 2u64..=34 {
+            for q in 1..p {
+                if num_integer::Integer::gcd(&p, &q) == 1 {
+                    pq.push((p, q));
+                }
+            }
+        }
+        r.universe(&format!("prefix matrices and gcd on leading words in exact ratio p:q ({} coprime pairs, p <= 34) x continuations", pq.len()), 256, pq.len(), |i, l| {
+            let (p, q) = pq[i];
+            let smax = u64::MAX / p;
+            for s in [smax, smax - 1, 1u64 << (63 - (64 - p.leading_zeros() as u64).min(63)).max(1), (smax >> 20) << 20, 0x9E37_79B9_7F4A_7C15 % smax + 1] {
+                let (a0, a1) = (p * s, q * s);
+                if a0 < 1 << 63 {
+                    // normalise: scale by the largest power of two that keeps p*s below 2^64
+                    let sh = a0.leading_zeros();
+                    let (a0, a1) = (a0 << sh, a1 << sh);
+                    for (lo_a, lo_b) in [(0u64, 0u64), (u64::MAX, 0), (0, u64::MAX), (0, 1), (1, 0), (u64::MAX, u64::MAX), (1 << 36, 0), (0, 1 << 36)] {
+                        l.states(1);
+                        let (ka, kb) = (V::U(vec![lo_a, a0]), V::U(vec![lo_b, a1]));
+                        k::exec(l, 128, k::Op::from_u64_prefix_apply, &[ka.clone(), kb.clone()]);
+                        k::exec(l, 128, k::Op::from_u128_prefix_apply, &[ka, kb]);
+                        // the same pair as the top of a 256-bit number, deviating far below
+                        let a = (BigUint::from(a0) << 192usize) + (BigUint::from(lo_a) << 100usize) + lo_a;
+                        let b = (BigUint::from(a1) << 192usize) + (BigUint::from(lo_b) << 100usize) + lo_b;
+                        if a >= b {
+                            gcd_case(l, 256, &a, &b);
+                        }
+                    }
+                    continue;
+                }
+                for (lo_a, lo_b) in [(0u64, 0u64), (u64::MAX, 0), (0, u64::MAX), (0, 1), (1, 0), (u64::MAX, u64::MAX)] {
+                    l.states(1);
+                    let (ka, kb) = (V::U(vec![lo_a, a0]), V::U(vec![lo_b, a1]));
+                    k::exec(l, 128, k::Op::from_u64_prefix_apply, &[ka.clone(), kb.clone()]);
+                    k::exec(l, 128, k::Op::from_u128_prefix_apply, &[ka, kb]);
+                    let a = (BigUint::from(a0) << 192usize) + (BigUint::from(lo_a) << 100usize) + lo_a;
+                    let b = (BigUint::from(a1) << 192usize) + (BigUint::from(lo_b) << 100usize) + lo_b;
+                    if a >= b {
+                        gcd_case(l, 256, &a, &b);
+                    }
+                }
+            }
+            // the construction a = p f, b = q f + delta with f = 2^200 + 2^100 (ratio exact in the leading words only)
+            let f = pow2(200) + pow2(100);
+            let (pa, qb) = (&f * p, &f * q);
+            for delta in [-1i32, 0, 1] {
+                let b = if delta < 0 { &qb - 1u32 } else { &qb + delta as u32 };
+                gcd_case(l, 256, &pa, &b);
+                gcd_case(l, 256, &(&pa + 1u32), &b);
+                if p * 2 < 64 {
+                    gcd_case(l, 256, &(&pa - 1u32), &b);
+                }
+            }
+        });
+    }
     // from_u64_prefix / from_u128_prefix on B64^2 with a0 >= 2^63, with extreme continuations
     r.universe("prefix matrices on B64^2 (a0 >= 2^63, a0 >= a1) x low-word continuations", 128, bw.len(), |i, l| {
         let a0 = bw[i];
@@ -1236,6 +1295,24 @@ fn c15(r: &Runner) {
                 for acc in &accs {
                     l.states(1);
                     k::exec(l, 0, K::addmul_n, &[vu(acc), vu(&sn[i]), vu(b)]);
+                }
+            }
+        });
+    }
+    {
+        // half-word alphabet on the multiplying kernels (one- and two-limb slices x scalar x carry-in)
+        let h = h36();
+        r.universe("mul_nx1 / addmul_nx1 / submul_nx1 / addmul on H36 limbs (32-bit halves from {0,1,2,2^31,2^32-2,2^32-1})", 128, h.len(), |i, l| {
+            let a = h[i];
+            for &b in &h {
+                l.states(1);
+                k::exec(l, 0, K::mul_nx1, &[V::U(vec![a]), V::N(b as u128)]);
+                k::exec(l, 0, K::mul_nx1, &[V::U(vec![a, b]), V::N(a as u128)]);
+                for &c in h.iter().step_by(5) {
+                    k::exec(l, 0, K::addmul_nx1, &[V::U(vec![c]), V::U(vec![a]), V::N(b as u128)]);
+                    k::exec(l, 0, K::submul_nx1, &[V::U(vec![c]), V::U(vec![a]), V::N(b as u128)]);
+                    k::exec(l, 0, K::addmul, &[V::U(vec![c, c]), V::U(vec![a]), V::U(vec![b])]);
+                    k::exec(l, 0, K::addmul, &[V::U(vec![c, 0, 0]), V::U(vec![a, b]), V::U(vec![b, a])]);
                 }
             }
         });
